@@ -47,6 +47,13 @@ def register_tasks():
     return [T(f"MultiTypeMap.register[{'/'.join(sh) or 'nullary'}]", typemap_c.t_mtm_register(sh), "B") for sh in [(), ("p",), ("p", "p"), ("p", "k"), ("p", "p", "k")]]
 
 
+def register_unbounded_tasks():
+    """MultiTypeMap.register for a signature with any number of entries (contracts/register_u_c.py)."""
+    from contracts import register_u_c
+
+    return [T("MultiTypeMap.register/any_number_of_entries", register_u_c.t_register_unbounded)]
+
+
 def mro_unbounded_tasks():
     """MultiTypeMap.mro for any number of methods and entries (contracts/mropos_c.py)."""
     from contracts import mropos_c
